@@ -42,6 +42,17 @@ def apply_edits(root, edits):
     for e in edits:
         f = root / "circuitgraph" / e["file"]
         s = f.read_text()
+        if "fn" in e:
+            s2 = e["fn"](s)
+            if s2 is None or s2 == s:
+                return f"edit function does not apply: {e['file']}"
+            f.write_text(s2)
+            if f.suffix == ".py":
+                try:
+                    compile(s2, str(f), "exec")
+                except SyntaxError as ex:
+                    return f"variant does not compile: {ex}"
+            continue
         cnt = s.count(e["old"])
         want = e.get("count", 1)
         if cnt != want:
